@@ -865,6 +865,29 @@ def vec_model(eng, ctx, cp, self_ty, trait, m, args):
     if m == "get" and v.elems is not None and isinstance(args[1], Sc) and not is_sym(args[1].v):
         i = int(args[1].v)
         return OPT_SOME(Ref(v.elems, i)) if 0 <= i < len(v.elems) else OPT_NONE()
+    if m == "get" and v.elems is not None and isinstance(args[1], Sc):
+        # symbolic index into a concrete-length sequence: one branch per element, one for out of range
+        i, n = args[1], len(v.elems)
+        conds = [i.v == z3.BitVecVal(k, i.bits) for k in range(n)] + [z3.UGE(i.v, z3.BitVecVal(n, i.bits))]
+        k = ctx.choose_cond(conds, "slice-get")
+        return OPT_SOME(Ref(v.elems, k)) if k < n else OPT_NONE()
+    if m in ("extend", "append") and v.elems is not None:
+        src = args[1]
+        inner = deref(src)
+        if isinstance(inner, VecV) and inner.elems is not None:
+            items = list(inner.elems)
+            if m == "append":
+                inner.elems[:] = []
+        elif isinstance(src, IterV):
+            items = _drain(eng, ctx, src)
+        elif isinstance(inner, SetV):
+            items = list(inner.elems)
+        elif isinstance(inner, Adt) and inner.ty == "Option":
+            items = [inner.fields[0]] if inner.variant == "Some" else []
+        else:
+            return NO_MODEL
+        v.elems.extend(items)
+        return UNIT
     if m == "swap" and v.elems is not None and not is_sym(args[1].v) and not is_sym(args[2].v):
         i, j = int(args[1].v), int(args[2].v)
         if max(i, j) >= len(v.elems):
